@@ -23,6 +23,7 @@
 //  Includes
 // ---------------------------------------------------------------------------
 #include <xercesc/internal/XMLReader.hpp>
+#include <xercesc/util/XercesVerifHooks.hpp>
 #include <xercesc/util/BitOps.hpp>
 #include <xercesc/util/BinInputStream.hpp>
 #include <xercesc/util/PlatformUtils.hpp>
@@ -615,6 +616,7 @@ bool XMLReader::refreshCharBuffer()
 
     // Reset the buffer index to zero, so we start from the 0th char again
     fCharIndex = 0;
+    XERCES_VERIF_POINT(CharRefresh, this, spareChars, fCharsAvail);
 
     //
     //  If no chars available, then we have to check for one last thing. If
@@ -1914,6 +1916,7 @@ void XMLReader::refreshRawBuffer()
     //  since any trailing data was copied down to the start.
     //
     fRawBufIndex = 0;
+    XERCES_VERIF_POINT(RawRefresh, this, bytesLeft, fRawBytesAvail);
 }
 
 
